@@ -73,6 +73,9 @@ def _alphabet(w):
         # list must not return the second write without the first
         [{"a": "set_trial_ua", "t": 1, "key": "k2", "v": w}, {"a": "set_trial_sa", "t": 2, "key": "k1", "v": w}],
         [{"a": "set_iv", "t": 1, "step": "7", "v": w}, {"a": "set_state", "t": 2, "state": "RUNNING", "values": sd.NONE_V}],
+        # as the 16th program, but the LOWER-numbered worker brings the worse value (the preempted worker of a pair is
+        # always worker 1: derived state such as the best-trial cache must not depend on who is interrupted)
+        [{"a": "create_trial", "s": 1, "tm": {"has": 0}}, {"a": "set_state", "t": "own", "state": "COMPLETE", "values": [3 - w]}],
     ]
 
 
@@ -82,7 +85,11 @@ def priority_pairs(kind):
     readers = [i for i, p in enumerate(al) if p[0]["a"] in ("get_all_trials", "get_trial", "get_best_trial")]
     multi = [i for i, p in enumerate(al) if len(p) == 2 and not p[0]["a"].startswith("create")]
     pairs = [(r, m) for r in readers for m in multi]
-    return pairs[:2] if kind == "cached_rdb_threads" else pairs
+    if kind == "cached_rdb_threads":
+        return pairs[:2]
+    # two workers finishing their own trials with better-than-best values: every preemption point as well
+    fin = [i for i, p in enumerate(al) if len(p) == 2 and p[1]["a"] == "set_state" and p[1]["t"] == "own"]
+    return pairs + [(a, b) for a in fin for b in fin]
 
 
 _CLOSERS = []
@@ -243,14 +250,18 @@ def execute(kind, programs, choose_factory, sched=None, group=None, files=None):
         sched.add(mk(i + 1, prog, storages[i]))
     info = sched.run(choose_factory(sched))
     raw_events += sched.log
-    t = _project_history(raw_events, shared, observer, sched, len(programs))
+    closing = []
+    for st in list(storages[:len(programs)]) + [observer]:
+        if not any(st is x for x in closing):
+            closing.append(st)
+    t = _project_history(raw_events, shared, observer, sched, len(programs), closing=closing)
     while _CLOSERS:
         _CLOSERS.pop()()
     t.update({"choices": sched.choices, "deadlock": int(info["deadlock"]), "lines": [w.lines for w in sched.workers]})
     return t
 
 
-def _project_history(raw_events, shared, observer, sched, nprog):
+def _project_history(raw_events, shared, observer, sched, nprog, closing=None):
     # ---- projection after the run: ids in creation (= raw id) order
     obs = sd.Replayer(observer)
     created_t = sorted(set(shared[1]) | {r[3][1] for r in raw_events if r[0] == "start" and r[1] > 0 and r[3] and
@@ -288,6 +299,21 @@ def _project_history(raw_events, shared, observer, sched, nprog):
     for e in ev:       # SQLite `database is locked` surfaces as StorageInternalError: the reply Busy (no effect)
         if e["e"] == "start" and e["ret"]["k"] == "err" and str(e["ret"]["v"]).startswith("Unexpected:StorageInternalError"):
             e["ret"] = {"k": "err", "v": "Busy"}
+    # closing reads, after every worker has stopped: what the storage objects answer NOW must also be explained by the
+    # chosen linearization (derived state such as the best-trial cache or the WAITING cursor is only visible this way)
+    for st in ([observer] if closing is None else closing):
+        rp = sd.Replayer(st)
+        rp.rawT, rp.t_of_raw, rp.rawS, rp.s_of_raw = created_t, t_of_raw, created_s, s_of_raw
+        for sidx in range(1, len(created_s) + 1):
+            for op in ({"a": "get_best_trial", "s": sidx},
+                       {"a": "get_all_trials", "s": sidx, "states": ["WAITING"], "dc": 1},
+                       {"a": "get_all_trials", "s": sidx, "states": ["ALL"], "dc": 0}):
+                ret, raw = _call_keep(rp, op)
+                ret = project(obs, op, ret, raw, s_of_raw, t_of_raw)
+                if ret["k"] == "err" and str(ret["v"]).startswith("Unexpected:StorageInternalError"):
+                    continue
+                ev.append({"e": "start", "w": 0, "op": op, "ret": ret})
+                ev.append({"e": "end", "w": 0})
     ev.append({"e": "final", "w": 0, "post": obs.post()})
     return {"workers": list(range(nprog + 1)), "ev": ev, "choices": [], "deadlock": 0, "lines": []}
 
